@@ -23,11 +23,11 @@ type deferred struct {
 }
 
 type frame struct {
-	fn     *ssa.Function
-	regs   map[ssa.Value]Value
-	defers []deferred
-	visits map[*ssa.BasicBlock]int
-	result Value
+	fn        *ssa.Function
+	regs      map[ssa.Value]Value
+	defers    []deferred
+	visits    map[*ssa.BasicBlock]int
+	result    Value
 	panicking *targetPanic
 	recovered bool
 	skipPhi   *ssa.BasicBlock
